@@ -9,8 +9,11 @@
 (***************************************************************************)
 EXTENDS LangObj, TLC, Json, SequencesExt
 CONSTANTS MaxLen, Area
-VARIABLES prog, af
-vars == <<prog, af>>
+VARIABLES prog,    \* the statements after the prefix
+          af,      \* auto_features
+          before,  \* execution state before the last statement
+          after    \* ... and after it (the run is kept incrementally: one Exec per state)
+vars == <<prog, af, before, after>>
 
 \* ---- names and literals (code points) ----------------------------------------------------------
 nX == <<120>>   nY == <<121>>   nD == <<100>>   nC == <<99>>   nO == <<111>>
@@ -137,23 +140,31 @@ Prefix == CASE Area = "dis" -> DisPrefix [] Area = "feat" -> FeatPrefix [] Area 
 Alphabet == CASE Area = "dis" -> DisAlphabet [] Area = "feat" -> FeatAlphabet [] Area = "cfg" -> CfgAlphabet [] Area = "env" -> EnvAlphabet
 AutoFeatures == IF Area = "feat" THEN States ELSE {AUTO}
 
-Init == prog = <<>> /\ af \in AutoFeatures
-Next == Len(prog) < MaxLen /\ af' = af /\ \E s \in Alphabet : prog' = Append(prog, s)
+Init == /\ prog = <<>>
+        /\ af \in AutoFeatures
+        /\ before = Run(Prefix, af)
+        /\ after = before
+Next == /\ Len(prog) < MaxLen
+        /\ af' = af
+        /\ \E s \in Alphabet : /\ prog' = Append(prog, s)
+                               /\ before' = after
+                               /\ after' = IF after.sig = "next" THEN Exec(s, after) ELSE after
 Spec == Init /\ [][Next]_vars
 
 \* ---- the run, and the run up to the last statement ---------------------------------------------------------------------
-Full == Run(Prefix \o prog, af)
-Before == Run(Prefix \o SubSeq(prog, 1, Len(prog) - 1), af)
-HasLast == prog # <<>> /\ Before.sig = "next"
+Full == after
+Before == before
+HasLast == prog # <<>> /\ before.sig = "next"
 LastS == prog[Len(prog)]
-After == Exec(LastS, Before)
+After == after
+\* the incremental run is the run of the whole program
+RunIsIncremental == after = Run(Prefix \o prog, af)
 
 IsCps(s) == \A i \in 1..Len(s) : s[i] \in 0..1114111
 Total == /\ Full.sig \in {"next", "err"}
          /\ Full.code \in {0, 1, 3}
          /\ (Full.sig = "next") = (Full.code = 0)
          /\ \A i \in 1..Len(Full.out) : IsCps(Full.out[i])
-         /\ (HasLast => After = Full)
 \* messages are never retracted
 OutputGrows == HasLast => /\ Len(After.out) >= Len(Before.out)
                           /\ SubSeq(After.out, 1, Len(Before.out)) = Before.out
